@@ -421,6 +421,15 @@ func c06Faults(block []byte, r *core.Rand, exhaustive bool) []c06fault {
 		b[r.Intn(len(b))] ^= 1 << uint(r.Intn(8))
 		fs = append(fs, c06fault{kind: "bitflip+zero-read", data: b, failAt: -1, zeroAt: 1 + r.Intn(len(block))})
 	}
+	// foreign bytes appended behind a "nothing happened" read that falls exactly at the end of the genuine block (or inside
+	// its trailing whitespace): a consumer that takes (0, nil) for the end of the stream would never see them
+	for _, ext := range [][]byte{{0x20}, {'x'}, {0x0a, 'x'}, {0x20, 0x20, 0x7b, 0x7d}, r.Bytes(3)} {
+		for _, at := range []int{len(block) + 1, len(block) + 2} {
+			if at-1 <= len(block)+len(ext) {
+				fs = append(fs, c06fault{kind: "extension+zero-read", data: append(append([]byte{}, block...), ext...), failAt: -1, zeroAt: at, chunk: r.Intn(2)})
+			}
+		}
+	}
 	// the same faults through kind-restricted prototypes: the assembler may refuse the data (wrong kind) at any point,
 	// and the hash verdict must still come first
 	n0 := len(fs)
